@@ -771,6 +771,12 @@ def make_groups(rng, tier):
                 rq["body"] = json.dumps({"items": rq["items"]})
                 reqs.append(rq)
         groups.append(dict(config=text, intent=intent, backend=backend, nobatch=False, now=T0, setup=setup, requests=reqs, gen=gen, tag="several-existing-ids"))
+    # batches of a few hundred items (between the sizes a test suite uses and the maximum of 1000): published whole, every item stored
+    text, intent = make_config(rng, 0, tier)
+    for backend in ("memory", "sqlite"):
+        gen = Gen(rng, intent)
+        reqs = [make_request(gen, False, 101), make_request(gen, False, 250), make_request(gen, True, 150), make_request(gen, False, 999 if tier != "quick" else 333)]
+        groups.append(dict(config=text, intent=intent, backend=backend, nobatch=False, now=T0, setup=[], requests=[r for r in reqs if r], gen=gen, tag="hundreds"))
     if tier != "quick":
         text, intent = make_config(rng, 0, tier)
         for backend in ("memory", "sqlite"):
